@@ -5,6 +5,7 @@ import (
 	"fmt"
 	"go/ast"
 	"go/parser"
+	"go/printer"
 	"go/token"
 	"os"
 	"path/filepath"
@@ -44,6 +45,15 @@ func funcDecl(f *ast.File, recv, name string) *ast.FuncDecl {
 	}
 	die("function %s.%s not found", recv, name)
 	return nil
+}
+
+// anyExprText renders any expression as source text (used where the shape of the expression is not prescribed).
+func anyExprText(e ast.Expr) string {
+	var sb strings.Builder
+	if err := printer.Fprint(&sb, token.NewFileSet(), e); err != nil {
+		return fmt.Sprintf("%T", e)
+	}
+	return strings.Join(strings.Fields(sb.String()), " ")
 }
 
 func exprText(e ast.Expr) string {
@@ -295,7 +305,7 @@ func main() {
 				case *ast.Ident:
 					return
 				}
-				lines = append(lines, fmt.Sprintf("  (%s, %s, %s)", cs(fn), cs(name), cs(exprText(e))))
+				lines = append(lines, fmt.Sprintf("  (%s, %s, %s)", cs(fn), cs(name), cs(anyExprText(e))))
 			}
 			ast.Inspect(fdecl.Body, func(n ast.Node) bool {
 				switch x := n.(type) {
